@@ -171,7 +171,9 @@ def check_tokens(ctx, tokens, wrap="bare", via_lint=False):
         if via_lint and (lic or cop) and len(text.encode()) < 4000:
             d = ctx.fresh_dir()
             try:
-                tree.write_tree(d, {"f.txt": text, "g.txt": text, "g.txt.license": "SPDX-License-Identifier: MIT\n"})
+                # the same text as a file of its own, shadowed by a sibling, and AS the sibling of another file
+                tree.write_tree(d, {"f.txt": text, "g.txt": text, "g.txt.license": "SPDX-License-Identifier: MIT\n", "h.bin": b"\x00\x01binary\x00", "h.bin.license": text,
+                                   "k.txt": "plain\n", "k.txt.license": text})
                 res, data = tree.lint_json(d)
                 if data is None:
                     ctx.fail(case, f"lint --json did not produce a report: {res.brief()}")
@@ -181,6 +183,13 @@ def check_tokens(ctx, tokens, wrap="bare", via_lint=False):
                 gc, ge = tree.entry_sets(ent)
                 if gc != cop or ge != lic:
                     ctx.fail(case, f"lint --json attributes {sorted(gc)} / {sorted(ge)} to the file, expected {sorted(cop)} / {sorted(lic)}")
+                for sib in ("h.bin", "k.txt"):
+                    ent = tree.file_entry(data, sib)
+                    if ent is None:
+                        ctx.fail(case, f"lint --json does not list {sib}")
+                    gc, ge = tree.entry_sets(ent)
+                    if gc != cop or ge != lic:
+                        ctx.fail(case, f"lint --json attributes {sorted(gc)} / {sorted(ge)} to {sib} (text in {sib}.license), expected {sorted(cop)} / {sorted(lic)}")
                 ctx.label("via-lint")
             finally:
                 tree.rmtree(d)
